@@ -166,7 +166,36 @@ def mixer_sessions(res, b, rng, tier):
                           % (hx(s1)[:16], hx(s2)[:16], ok1, ok2, k, pr),
                           {"config": got[2], "ops": ["TRNG SYSCLEAR", "TRNG SYS %s %d" % (hx(s1), ok1), "TRNG SYS %s %d" % (hx(s2), ok2), "MIX %d" % k], "impl": r,
                            "how": "harness built with -DVERIF_REAL_MIXER (only ascon_trng_generate is substituted)"})
-    return {"runs": n, "config": got[2]}
+    # every byte of the 32-byte system answer reaches the words: one bit flipped at each of the 32 positions of the init seed must change the
+    # words after init, at each position of the reseed seed the words after the reseed (and only those)
+    s1, s2 = rnd_bytes(rng, 32), rnd_bytes(rng, 32)
+    def script(a, b_):
+        return ["TRNG SYSCLEAR", "TRNG SYS %s 1" % hx(a), "TRNG SYS %s 1" % hx(b_), "MIX 5"]
+    lines = script(s1, s2)
+    variants = []
+    for i in range(32):
+        f = bytearray(s1); f[i] ^= 1 << rng.randrange(8); variants.append(("init", i, bytes(f), s2)); lines += script(bytes(f), s2)
+        f = bytearray(s2); f[i] ^= 1 << rng.randrange(8); variants.append(("reseed", i, s1, bytes(f))); lines += script(s1, bytes(f))
+    out = common.run_lines(got[1], lines)[1]
+    mix = [o.split() for o in out[3::4]]
+    n += len(mix)
+    base = mix[0] if mix else []
+    for (which, i, a, b_), r in zip(variants, mix[1:]):
+        pr = None
+        if len(r) != 5 or len(base) != 5:
+            pr = "malformed answer %s" % r
+        elif which == "init" and r[3] == base[3]:
+            pr = "byte %d of the system seed given to ascon_trng_init does not influence the words handed out" % i
+        elif which == "reseed" and (r[4] == base[4] or r[3] != base[3]):
+            pr = "byte %d of the system seed given to ascon_trng_reseed does not (only) influence the words after the reseed" % i
+        if pr:
+            res.violation("mixer-seedbyte-%s" % which, "ascon_trng_* mixer on a scripted system source: " + pr,
+                          {"config": got[2], "ops": script(a, b_), "impl": r, "reference_ops": script(s1, s2), "reference": base,
+                           "how": "harness built with -DVERIF_REAL_MIXER (only ascon_trng_generate is substituted)"})
+            break
+    if len(mix) != 65:
+        raise common.Infra("mixer seed-byte sweep: %d answers instead of 65" % len(mix))
+    return {"runs": n, "config": got[2], "seed_byte_positions_swept": 64}
 
 
 def run(res, tier, seed, replay=None):
